@@ -151,6 +151,27 @@ impl C16 {
             for t in ["print(0.0)", "print(-0.0)", "print([0.0, -0.0])", "print([-0.0, 0.0])", "string(-0.0)", "string(0.0)", "print(1.0); print(1)", "print(1); print(1.0)", "print(\"1\"); print(1)", "print(-0.0); -0.0", "print(0.0); 0.0", "[-0.0]", "[0.0]", "print(ja); print(1)", "print(\"\"); print(null_())"] {
                 v.push(t.replace("null_()", "(als nee { 1 })"));
             }
+            // the directed programs of the other checks (small ones that end by themselves): whatever they were written to
+            // provoke must come out the same in every context as well
+            if matches!(ctx.flavour, Flavour::Rel | Flavour::Dbg) {
+                let mut extra: Vec<String> = vec![];
+                extra.extend(super::c01::corpus().into_iter().map(|c| c.text));
+                extra.extend(super::c02::directed().into_iter().map(|d| d.1));
+                extra.extend(super::c05::directed().into_iter().map(|d| d.1));
+                extra.extend(super::flow::c12_directed().into_iter().map(|d| d.1));
+                extra.extend(super::flow::c11_directed().into_iter().map(|d| d.1.to_string()));
+                extra.extend(super::c13::directed().into_iter().map(|d| d.1.to_string()));
+                extra.extend(super::heap::directed().into_iter().map(|d| d.1.to_string()));
+                extra.extend(super::meta::c09_directed().into_iter().map(|d| d.1.to_string()));
+                extra.extend(super::meta::c10_directed().into_iter().map(|d| d.1.to_string()));
+                for t in extra {
+                    // not the big ones, not the ones that only a budget ends (the budget is per context the same, but
+                    // millions of instructions per item and context are not worth it)
+                    if t.len() <= 2000 && !t.contains("zolang ja") && !t.contains("1000000") && !t.contains("100000") && !t.contains("n + 1)") && !t.contains("70000") {
+                        v.push(t);
+                    }
+                }
+            }
             // formats at the edge of what the placeholder scanner reads
             for t in ["print(\"{\")", "print(\"a {} {\", 1)", "print(\"1234567{\")", "print(\"12345678{\", 2)", "print(\"}\")", "print(\"{}{\", \"{}\")", "print(\"\")", "print(\"é{\")"] {
                 v.push(t.to_string());
